@@ -63,10 +63,10 @@ type Handler struct {
 
 // Builtin is one entry of the builtin function table.
 type Builtin struct {
-	Name    string          // local name (space must be "")
-	Space   string
-	Fns     map[int]*ssa.Function // arity -> implementation when built from an overload helper; key -1 = single implementation
-	Pos     token.Pos
+	Name  string // local name (space must be "")
+	Space string
+	Fns   map[int]*ssa.Function // arity -> implementation when built from an overload helper; key -1 = single implementation
+	Pos   token.Pos
 }
 
 func (b *Builtin) impls() []*ssa.Function {
@@ -83,16 +83,16 @@ func (b *Builtin) impls() []*ssa.Function {
 }
 
 type Facts struct {
-	NTNames  []string
-	TNames   []string
-	Alts     map[string][]Alt // by NT
-	NumAlts  int
-	Handlers map[string]*Handler
+	NTNames    []string
+	TNames     []string
+	Alts       map[string][]Alt // by NT
+	NumAlts    int
+	Handlers   map[string]*Handler
 	HandlerDup []string
-	Builtins map[string]*Builtin
+	Builtins   map[string]*Builtin
 	BuiltinVar *ssa.Global
 	HandlerVar *ssa.Global
-	err      []string
+	err        []string
 }
 
 func (w *World) factSummary() map[string]int {
